@@ -1164,20 +1164,20 @@ func c15R3(c *Ctx) {
 			filtered[fc.Value()] = true
 		}
 		// edges on which filtering may be skipped: no filter requested, or the server declares it applied
-		var skip []Edge
+		// (also when these conditions are first combined in a boolean variable)
 		at := fcalls[0].Common().Args[1]
-		z, _ := c13LenZeroEdges(f, c13AliasSet(at))
-		for _, g := range applied {
-			for _, call := range c13CallsToFn(f, g) {
-				if cv, ok := call.(*ssa.Call); ok {
-					te, _ := BoolTests(f, map[ssa.Value]bool{cv: true})
-					skip = append(skip, te...)
-				}
-			}
-		}
 		conditional := len(c13SendSites(f)) > 0 // the API page may rely on the server; the tag-schema path may not
+		isApplied := map[*ssa.Function]bool{}
+		for _, g := range applied {
+			isApplied[g] = true
+		}
+		appliedClass := func(cond ssa.Value) (bool, bool) {
+			call, ok := cond.(*ssa.Call)
+			return ok && isApplied[StaticCallee(call)], false
+		}
+		var skip []Edge
 		if conditional {
-			skip = append(skip, z...)
+			skip = c13FactEdgesOfConds(f, c13OrClass(c13EmptyStringClass(c13AliasSet(at)), appliedClass))
 		}
 		for _, cb := range cbs {
 			ok := true
@@ -1288,37 +1288,38 @@ func c15R4(c *Ctx) {
 			continue
 		}
 		tagAl := Aliases(tag)
-		var after, notDigest []Edge
-		for _, i := range Ifs(f) {
-			cond, t, e := ifEdges(i)
-			bo, ok := cond.(*ssa.BinOp)
+		afterClass := func(cond ssa.Value) (bool, bool) {
+			op, other, ok := c13CmpNorm(cond, tagAl)
+			if !ok || !lastAl[other] {
+				return false, false
+			}
+			return op == token.GTR, op == token.LEQ
+		}
+		after := c13FactEdgesOfConds(f, afterClass)
+		afterOrNoLast := c13FactEdgesOfConds(f, c13OrClass(afterClass, c13EmptyStringClass(lastAl)))
+		notDigest := c13FactEdgesOfConds(f, func(cond ssa.Value) (bool, bool) {
+			op, other, ok := c13CmpNorm(cond, tagAl)
 			if !ok {
-				continue
+				return false, false
 			}
-			switch {
-			case tagAl[bo.X] && lastAl[bo.Y] && bo.Op == token.LEQ, lastAl[bo.X] && tagAl[bo.Y] && bo.Op == token.GEQ:
-				after = append(after, e)
-			case tagAl[bo.X] && lastAl[bo.Y] && bo.Op == token.GTR, lastAl[bo.X] && tagAl[bo.Y] && bo.Op == token.LSS:
-				after = append(after, t)
+			if call, isCall := other.(*ssa.Call); isCall && CalleeName(call) == "(digest.Digest).String" {
+				return op == token.NEQ, op == token.EQL
 			}
-			if bo.Op == token.EQL || bo.Op == token.NEQ {
-				var other ssa.Value
-				if tagAl[bo.X] {
-					other = bo.Y
-				} else if tagAl[bo.Y] {
-					other = bo.X
-				}
-				if call, ok := other.(*ssa.Call); ok && CalleeName(call) == "(digest.Digest).String" {
-					if bo.Op == token.EQL {
-						notDigest = append(notDigest, e)
-					} else {
-						notDigest = append(notDigest, t)
+			return false, false
+		})
+		hasAfterCmp := len(after) > 0
+		if !hasAfterCmp { // the comparison may only exist as a stored boolean
+			AllInstrs(f, func(in ssa.Instruction) {
+				if v, ok := in.(ssa.Value); ok {
+					if t, fl := afterClass(v); t || fl {
+						hasAfterCmp = true
 					}
 				}
-			}
+			})
 		}
-		okAfter := MustPass(ap.(ssa.Instruction), newCut().Edges(after...).Edges(zeroLast...))
-		c.Check(R4, fn+"|only-tags-after-last", ap.Pos(), okAfter && len(after) > 0, ifelse(okAfter && len(after) > 0, "a tag is listed only if last == \"\" or tag > last", "a tag not after `last` can be listed"))
+		_ = zeroLast
+		okAfter := MustPass(ap.(ssa.Instruction), newCut().Edges(afterOrNoLast...))
+		c.Check(R4, fn+"|only-tags-after-last", ap.Pos(), okAfter && hasAfterCmp, ifelse(okAfter && hasAfterCmp, "a tag is listed only if last == \"\" or tag > last", "a tag not after `last` can be listed"))
 		okDg := len(notDigest) > 0 && MustPass(ap.(ssa.Instruction), newCut().Edges(notDigest...))
 		c.Check(R4, fn+"|digest-entries-skipped", ap.Pos(), okDg, ifelse(okDg, "entries whose name is their own digest are skipped", "digest-named entries of the tag map can be listed as tags"))
 	}
